@@ -495,6 +495,11 @@ def _hinge_case(desc, ctx):
         F = F2
     if rng.random() < 0.5:
         F = surfaces.rotate_faces(F, rng)
+    if desc["seed"] % 2 == 0:
+        # faces listed in any order (so that face number 0 may be one of the two faces at the crease)
+        F = [list(f) for f in F]
+        random.Random(desc["seed"] ^ 0xf0).shuffle(F)
+        ctx.cls("hinge:face_order_shuffled")
     Q, _, _ = None, None, None
     V, Q, t = surfaces.rigid(V, rng)
     declared = crease if desc["declare"] else None
